@@ -85,3 +85,22 @@ def run(ck, prog):
     from sa.builders import check_builders
     check_builders(ck, prog, r"^linear::logistic_regression::LogisticRegressionParameters$")
     ck.floor("E2-builder", 2)
+
+
+# ------------------------------------------------------------------ per-row outputs: no state carried between row iterations
+_run_pre_isolation = run
+ISOLATION_FNS = [('LogisticRegression::predict', '^linear::logistic_regression::LogisticRegression::<T, M>::predict$')]
+
+
+def run(ck, prog):
+    _run_pre_isolation(ck, prog)
+    from sa import isolation
+    isolation.run_rule(ck, prog, ISOLATION_FNS, xarg=2)
+
+
+EXPLANATION += (" Row-loop isolation (E2-isolation): in the `for i in 0..rows(x)` loop of LogisticRegression::predict every piece of state an "
+                "iteration reads is completely re-defined earlier in the same iteration (fresh allocation, whole assignment, fill/clear/"
+                "copy_row_as_vec, or a reset loop over the full length), except the loop iterator and the result container written "
+                "at row i only: a buffer hoisted out of the loop and only partly reset makes the output for a row depend on the rows "
+                "processed before it.")
+TECHNIQUE += "; loop-carried-state (iteration isolation) rule on the row loops"
